@@ -834,12 +834,12 @@ func TestVerifC09(t *testing.T) {
 		}
 	}
 	// documents replicated from another cluster (version vector with a foreign current version, merge and previous
-	// versions): every sequence of 2 ops after the foreign write for every vector shape, of 3 ops for two shapes
+	// versions): every sequence of 2 ops after the foreign write for every vector shape (thorough: of 3 ops)
 	hl := []string{"set2", "del", "touch", "put3", "gdel", "meta", "read", "feedL", "feedP"}
 	for h := range c09Shapes {
 		pre := fmt.Sprintf("foreign1.%d", h)
 		c09Enum(hl, 2, func(toks []string) { e.runCase("exhaustive-hlv", c09Resolve(append([]string{pre}, toks...))) })
-		if h == 4 || vThorough() {
+		if vThorough() {
 			c09Enum(hl, 3, func(toks []string) { e.runCase("exhaustive-hlv", c09Resolve(append([]string{pre}, toks...))) })
 		}
 	}
